@@ -217,6 +217,11 @@ func runC13(c *h.Ctx) {
 // c13Proto: Protobuf -> JSON -> Protobuf (up to reference message equality) and JSON -> Protobuf -> JSON.
 func c13Proto(c *h.Ctx) {
 	c.Run("proto", c.N(5000, 200000), func(cs *h.Case) {
+		if h.Portable {
+			// under the go1.25 tag sonic (used by j2p) falls back to encoding/json: not dynamicgo's code, not compared here
+			cs.Cover("proto_phase_skipped_in_portable_build")
+			return
+		}
 		sc := gen.GenPSchema(cs.R, gen.PCfg{Unpacked: true, MaxDepth: 2, MaxFields: 6, Nested: cs.R.Bool(), Enums: true, BigNums: cs.R.Chance(30), JSONNames: cs.R.Bool(), Optionals: cs.R.Bool()})
 		pc, err := PCompile(sc)
 		if err != nil {
@@ -286,6 +291,11 @@ var c13Fixed *c09Static
 
 func c13ProtoCapacity(c *h.Ctx) {
 	c.Run("proto-capacity", c.N(1500, 40000), func(cs *h.Case) {
+		if h.Portable {
+			// under the go1.25 tag sonic (used by j2p) falls back to encoding/json: not dynamicgo's code, not compared here
+			cs.Cover("proto_phase_skipped_in_portable_build")
+			return
+		}
 		st := c09Load(cs, c09Fixed, "Root", &c13Fixed)
 		if st == nil {
 			return
